@@ -62,7 +62,10 @@ type c11Fan struct {
 }
 
 type c11Scenario struct {
-	Sensors   []c11Sensor `json:"sensors"`
+	// CurveOrder: the order in which the curves appear in the file (a function curve may be listed
+	// before its members; nothing in the documentation forbids forward references)
+	CurveOrder []int       `json:"curveOrder,omitempty"`
+	Sensors    []c11Sensor `json:"sensors"`
 	Curves    []c11Curve  `json:"curves"`
 	Fans      []c11Fan    `json:"fans"`
 	Defects   []string    `json:"defects"`
@@ -206,6 +209,9 @@ func genC11(t *rapid.T) c11Scenario {
 			sc.Fans[0].Curve = ""
 		}
 		sc.Defects = append(sc.Defects, kind)
+	}
+	if rapid.Bool().Draw(t, "shuffleCurves") {
+		sc.CurveOrder = rapid.Permutation(seq(0, len(sc.Curves)-1)).Draw(t, "curveOrder")
 	}
 	return sc
 }
@@ -388,7 +394,14 @@ func renderC11(sc *c11Scenario, dir string) string {
 		}
 	}
 	w.line(0, "%s:", w.key("curves"))
-	for _, c := range sc.Curves {
+	ordered := sc.Curves
+	if len(sc.CurveOrder) == len(sc.Curves) {
+		ordered = nil
+		for _, i := range sc.CurveOrder {
+			ordered = append(ordered, sc.Curves[i])
+		}
+	}
+	for _, c := range ordered {
 		w.line(1, "- %s: %s", w.key("id"), w.str(c.Id))
 		for _, k := range c.Kinds {
 			switch k {
@@ -652,6 +665,9 @@ func runC11(t *testing.T, sc c11Scenario) verdict {
 	}
 	for _, d := range sc.Defects {
 		labels = append(labels, "defect:"+d)
+	}
+	if len(sc.CurveOrder) > 0 {
+		labels = append(labels, "curves-in-shuffled-order")
 	}
 	if cli != "" {
 		labels = append(labels, "cli-differential")
